@@ -168,7 +168,7 @@ DoGetTab(s0, ev) ==
     LET A == Avail(s0)
         T == ev.tab
         nonnull == { i \in Src(s0) : T[i + 1].o # "null" }
-        decTag == IF s0.codec = 5 THEN "C16" ELSE IF IsRS(s0) THEN "C01,C02" ELSE IF s0.finished THEN "C01,C03" ELSE "C01,C04"
+        decTag == IF s0.codec = 5 THEN "C16" ELSE IF IsRS(s0) THEN "C01,C02" ELSE IF s0.finished THEN "C01,C03" ELSE "C01"
         availTag == IF IsRS(s0) THEN "C02,C01" ELSE IF s0.codec = 5 THEN "C16"
                     ELSE IF s0.finished THEN "C03,C01" ELSE "C04"
         expectOrigin(i) ==
